@@ -3,6 +3,7 @@ package compiler
 import (
 	"encoding/json"
 	"fmt"
+	"unicode/utf8"
 
 	"github.com/risor-io/risor/op"
 )
@@ -50,6 +51,12 @@ type intConstantDef struct {
 type floatConstantDef struct {
 	Type  string  `json:"type"`
 	Value float64 `json:"value"`
+}
+
+// Used to marshal a string constant that is not valid UTF-8.
+type bytesConstantDef struct {
+	Type  string `json:"type"`
+	Value []byte `json:"value"`
 }
 
 type stringConstantDef struct {
@@ -196,6 +203,12 @@ func unmarshalConstant(constant json.RawMessage) (any, error) {
 			return nil, err
 		}
 		return def.Value, nil
+	case "bytes":
+		var def bytesConstantDef
+		if err := json.Unmarshal(constant, &def); err != nil {
+			return nil, err
+		}
+		return string(def.Value), nil
 	case "function":
 		var def functionConstantDef
 		if err := json.Unmarshal(constant, &def); err != nil {
@@ -247,6 +260,11 @@ func marshalConstant(c any) (json.RawMessage, error) {
 	case float64:
 		return json.Marshal(floatConstantDef{Type: "float", Value: c})
 	case string:
+		if !utf8.ValidString(c) {
+			// JSON strings must be valid UTF-8 (invalid bytes would be replaced
+			// by U+FFFD), so store such strings as base64 encoded bytes
+			return json.Marshal(bytesConstantDef{Type: "bytes", Value: []byte(c)})
+		}
 		return json.Marshal(stringConstantDef{Type: "string", Value: c})
 	case *Function:
 		fn, err := definitionFromFunction(c)
